@@ -117,6 +117,13 @@ def atomSem (eol : Eol) (inp : Array UInt8) (endp : Nat) (a : Atom) (p : Nat) : 
     match Pegtl.Utf.peekUtf8 ((inp.toList.drop p).take (endp - p)) with
     | some (cp, n) => if decide (lo ≤ cp ∧ cp ≤ hi) = found then some (p + n) else none
     | none => none
+  -- between `lo` and `hi` copies of `c`, and no further `c` behind them
+  | .repOne lo hi c =>
+    let w := ((inp.toList.drop p).take (endp - p)).take (hi + 1)
+    if w.length < lo then none
+    else
+      let i := (w.takeWhile (· == c)).length
+      if lo ≤ i ∧ i ≤ hi then some (p + i) else none
   -- the maximal run of digits, without a superfluous leading zero, whose value is at most `mx`
   | .maxDigits mx =>
     let ds := ((inp.toList.drop p).take (endp - p)).takeWhile (fun c => 48 ≤ c && c ≤ 57)
